@@ -91,6 +91,36 @@ fn emit(req: &Value) -> Value {
     }
 }
 
+/// many threads generate different shaders at the same time; every result must equal the sequential one
+fn concurrent(req: &Value) -> Value {
+    let sources: Vec<String> = req["sources"].as_array().map(|a| a.iter().filter_map(|x| x.as_str().map(String::from)).collect()).unwrap_or_default();
+    let rounds = req.get("rounds").and_then(|x| x.as_u64()).unwrap_or(4) as usize;
+    let opts = req.get("options").cloned().unwrap_or(Value::Null);
+    let seq: Vec<Value> = sources.iter().map(|s| gen(&json!({"wgsl": s, "options": opts}))).collect();
+    let mut handles = Vec::new();
+    for r in 0..rounds {
+        for (i, s) in sources.iter().enumerate() {
+            let s = s.clone();
+            let opts = opts.clone();
+            let _ = r;
+            handles.push((i, std::thread::spawn(move || gen(&json!({"wgsl": s, "options": opts})))));
+        }
+    }
+    let mut equal = true;
+    let n = handles.len();
+    for (i, h) in handles {
+        match h.join() {
+            Ok(v) => {
+                if v != seq[i] {
+                    equal = false;
+                }
+            }
+            Err(_) => equal = false,
+        }
+    }
+    json!({"equal": equal, "threads": n})
+}
+
 fn tokens_json(ts: TokenStream) -> Value {
     let mut out = Vec::new();
     for tt in ts {
@@ -184,6 +214,7 @@ fn main() {
             "gen" => gen(&req),
             "lex" => lex(&req),
             "emit" => emit(&req),
+            "concurrent" => concurrent(&req),
             other => json!({"bad_request": format!("unknown cmd {other}")}),
         };
         let mut o = stdout.lock();
